@@ -297,4 +297,12 @@ def sec_classic(chk):
         ie.ConjugateGradient, se.ConjugateGradient = old
 
 
-SECTIONS = [sec_push_through, sec_wiener_re, sec_samples_re, sec_classic]
+def sec_kl_re(chk):
+    """MAP / VI through the JAX driver: the Newton metric is the sample average of J^T N^-1 J + 1 -- with no samples (MAP) the full Hessian of
+    the Hamiltonian at the position, which makes one exact Newton step of a linear Gaussian problem land on the posterior mean
+    (the obligations of C19's kl_re section, re-discharged here on the same real functions)"""
+    from contracts import C19
+    C19.sec_kl_re(chk)
+
+
+SECTIONS = [sec_push_through, sec_wiener_re, sec_samples_re, sec_classic, sec_kl_re]
